@@ -284,7 +284,18 @@ fn open_failsafe_mla_file<'a>(
     // Safe to use unwrap() because the option is required()
     let mla_file = matches.get_one::<PathBuf>("input").unwrap();
     let path = Path::new(&mla_file);
-    let file = File::open(path)?;
+    let mut file = File::open(path)?;
+
+    // If a decryption key is provided, assume the user expects the file to be encrypted
+    // If not, avoid opening it
+    let header = ArchiveHeader::from(&mut file)?;
+    if config.layers_enabled.contains(Layers::ENCRYPT)
+        && !header.config.layers_enabled.contains(Layers::ENCRYPT)
+    {
+        eprintln!("[-] A private key has been provided, but the archive is not encrypted");
+        return Err(MlarError::PrivateKeyProvidedButNotUsed);
+    }
+    file.rewind()?;
 
     // Handle authenticated/unauthenticated data
     if matches.get_flag("allow_unauthenticated_data") {
